@@ -222,6 +222,42 @@ PROPS = {
              "covered under C06/C14.",
         technique="Lean 4 theorems over executable models + malformed-input differential stream + checker on implementation answers",
     ),
+    "C16": dict(
+        modules=["SpatialId.Props.C16"],
+        families=[("det_chgExt", 1500, 8000), ("det_chgSp", 800, 5000), ("det_mrgExt", 800, 5000), ("det_mrgSp", 500, 3000),
+                  ("det_nN", 600, 4000), ("det_ovEA", 1500, 8000), ("det_ovSA", 1500, 8000), ("det_tiles", 500, 3000),
+                  ("det_qv", 800, 4000)],
+        trusted_base=COMMON_TB + ["Go map iteration order only permutes de-duplicated results (the models fix one order; "
+                                  "comparison is on sorted results)"],
+        assumptions=["valid argument lists (an invalid element makes the array overlap checks order-dependent: known finding D14 of C15)"],
+        claim="Theorems (Props/C16.lean): membership in the result of zoom change, merge, N-layer neighbourhood, array overlap, "
+              "tile conversion, Unique and Union depends only on the set of inputs (SameSet ... -> SameSet ...), hence is "
+              "invariant under permutation and repetition of the input list, and the de-duplicated results are Nodup; the "
+              "models are pure functions. On the implementation the det_* families call each operation 5 times (map order "
+              "changes between calls), on 3 shuffled/duplicated variants, scan for duplicates and compare the caller's "
+              "argument slices before and after every call.",
+        note="order-independence is proved for the models as sets; slice aliasing and run-to-run determinism of the Go code "
+             "are observed, not proved. The corridor (C14) is covered there.",
+        technique="Lean 4 theorems over executable models + metamorphic differential checks on the Go code",
+    ),
+    "C19": dict(
+        modules=["SpatialId.Props.C19"],
+        families=[("chgExt,mrgExt,nN,ovEA,ovSA,tiles,qv,points,geom,shift,notation,altkey,sets,chgSp,mrgSp,nbr", 150, 1200, "conc")],
+        gen=True,
+        trusted_base=["/verif/extract (go/ast): table of package-level vars and of their syntactic non-read uses, regenerated from "
+                      "/repo on every run", "Go memory model; pinned third-party modules are not analysed",
+                      "Go race detector (happens-before) on the schedules that actually occur"],
+        assumptions=["argument slices and objects shared between goroutines are only read by the callers"],
+        claim="Theorems (Props/C19.lean): for any machine whose operations leave the global store unchanged, every schedule returns "
+              "for each call what the call returns alone (readonly_interleaving); the regenerated table of package-level variables "
+              "is exactly [transform.alt25] and the regenerated table of non-read uses of package-level variables is empty "
+              "(globals_table, repo_readonly: decide on generated data, so a new global or a new write site breaks the proof). "
+              "Search: every generated case of 16 op families is executed again on 16 goroutines, each in its own order, on "
+              "shared argument slices, under the Go race detector, and compared with its sequential result.",
+        note="proof over a syntactic fact model of /repo (regenerated, not sampled); the race detector explores schedules, it does "
+             "not prove their absence; dependencies are out of scope.",
+        technique="Lean 4 theorem over a regenerated global-state table + race-detector differential run",
+    ),
     "C20": dict(
         modules=["SpatialId.Props.C20"],
         families=[("sets", 30000, 200000), ("ashift", 20000, 200000), ("combLattice", 1, 1)],
